@@ -69,6 +69,7 @@ pub fn coalesce(expression: Expression, identifiers: &HashMap<String, Expression
 
 pub fn matrix(expression: Expression) -> Expression {
     #[cfg(feature = "verif")]
+    #[allow(unused_imports)]
     use crate::verif::PermMap as HashMap;
     match expression {
         Expression::BooleanGroup(BoolSym::And, expressions) => {
@@ -630,6 +631,7 @@ fn shake_0(expression: Expression) -> Expression {
 
 fn shake_1(expression: Expression) -> Expression {
     #[cfg(feature = "verif")]
+    #[allow(unused_imports)]
     use crate::verif::PermMap as HashMap;
     match expression {
         // TODO: Due to limitations with how we handle accessing array data it is not possible
